@@ -428,6 +428,38 @@ func runC16Race(t *testing.T, cases []map[string]interface{}, ev *vEvents) {
 		sw.Close()
 		total += 4 * 19
 	}
+	// phase D: a primary store that answers profile reads just after the daemon has given up on it and turned to the
+	// offline cache - the abandoned read and the fall-back must not share anything
+	{
+		dw := newWorld(vWorldOpts{CertCfg: []string{"password"}, WebUICfg: []string{"password"}})
+		for _, u := range []string{"alice", "bob", "carol", "dave"} {
+			vMust(dw.st.SaveUserProfile(u, &userProfile{Username: u, U2fAuthData: map[int64]*u2fAuthData{}, TOTPAuthData: map[int64]*totpAuthData{}}))
+		}
+		vMust(copyDBIntoSQLite(dw.st.db, dw.st.cacheDB, "sqlite"))
+		prim, _ := dw.regate()
+		for round := 0; round < 5; round++ {
+			prim.mu.Lock()
+			prim.delayQ = time.Duration(18+4*round) * time.Millisecond
+			prim.mu.Unlock()
+			dw.st.remoteDBQueryTimeout = 20 * time.Millisecond
+			var wg4 syncWaitGroup
+			for k := 0; k < 12; k++ {
+				wg4.Add(1)
+				go func(k int) {
+					defer wg4.Done()
+					u := []string{"alice", "bob", "carol", "dave"}[k%4]
+					for n := 0; n < 4; n++ {
+						dw.st.LoadUserProfile(u)
+						dw.Do(vReq{Method: "GET", Path: "/profile/", Cookies: map[string]string{authCookieName: dw.mintCookie(u, AuthTypePassword, 0)}})
+					}
+				}(k)
+			}
+			wg4.Wait()
+			total += 12 * 8
+		}
+		time.Sleep(80 * time.Millisecond) // abandoned reads finish
+		dw.Close()
+	}
 	ev.Emit(map[string]interface{}{"i": 0, "ev": "Soak", "requests": total})
 }
 
